@@ -81,6 +81,45 @@ def compile_db():
     return db
 
 
+def portable_units(db):
+    """unit list of a build without HAVE_AMD64_ASM / HAVE_AVX_ASM / HAVE_TI_MODE: follows the
+    `if X ... else ... endif` blocks of src/libsodium/Makefile.am for those three conditionals"""
+    off = {"HAVE_AMD64_ASM", "HAVE_AVX_ASM", "HAVE_TI_MODE"}
+    add, drop = set(), set()
+    stack = []
+    am = os.path.join(SRCDIR, "Makefile.am")
+    if not os.path.exists(am):
+        raise AnalysisBroken("portable configuration: %s missing" % am)
+    for line in open(am):
+        t = line.strip()
+        m = re.match(r"^if (!?)(\w+)$", t)
+        if m:
+            neg, name = bool(m.group(1)), m.group(2)
+            if name in off:
+                stack.append("on" if neg else "off")      # `if !X` is active when X is off
+            else:
+                stack.append("keep")
+            continue
+        if t == "else" and stack:
+            stack[-1] = {"on": "off", "off": "on", "keep": "keep"}[stack[-1]]
+            continue
+        if t == "endif" and stack:
+            stack.pop()
+            continue
+        for f in re.findall(r"([\w/.+-]+\.(?:c|S))\b", t):
+            if "off" in stack:
+                drop.add(f)
+            elif "on" in stack:
+                add.add(f)
+    base_flags = next(fl for src, fl in db if src.endswith("sodium/core.c"))
+    out = [(src, fl) for src, fl in db if src not in drop]
+    have = {src for src, _fl in out}
+    for f in sorted(add - have):
+        if os.path.exists(os.path.join(SRCDIR, f)):
+            out.append((f, list(base_flags)))
+    return out
+
+
 GCC_ONLY = {"-fno-strict-overflow"}
 
 PORTABLE_UNDEF = [
@@ -141,6 +180,8 @@ def build_ir(wd, config="native", opt="O0", only=None, extra_undef=(), extra_def
     if not os.path.exists(IRX):
         raise AnalysisBroken("%s missing: run MANIFEST.setup_cmd (make -C /verif/tools)" % IRX)
     db = compile_db()
+    if config == "portable":
+        db = portable_units(db)
     tag = tag or ("%s-%s" % (config, opt))
     outdir = os.path.join(wd, tag)
     os.makedirs(outdir, exist_ok=True)
